@@ -18,7 +18,7 @@ import (
 )
 
 type CaseC15 struct {
-	Clause   string                 `json:"clause"` // bytes | args
+	Clause   string                 `json:"clause"`         // bytes | args
 	Kind     string                 `json:"kind,omitempty"` // xml | json | gob
 	Input    []byte                 `json:"input,omitempty"`
 	Pristine bool                   `json:"pristine,omitempty"`
